@@ -2,6 +2,7 @@ package rules
 
 import (
 	"go/token"
+	"sort"
 	"strings"
 
 	"kmcheck/internal/km"
@@ -227,7 +228,46 @@ func checkC17(c *km.Ctx) {
 	}
 
 	// ---------- R-C17-2
-	isInbound := func(v ssa.Value) bool { return derivesFromFormValue(v, "login_destination", 0) }
+	var isInbound func(v ssa.Value) bool
+	inboundParam := map[*ssa.Parameter]int{}
+	isInbound = func(v ssa.Value) bool {
+		if derivesFromFormValue(v, "login_destination", 0) {
+			return true
+		}
+		// the parameter of a pure filter helper: every caller hands it the inbound value
+		p, ok := km.Unwrap(v).(*ssa.Parameter)
+		if !ok {
+			return false
+		}
+		if r, seen := inboundParam[p]; seen {
+			return r == 2
+		}
+		inboundParam[p] = 1
+		g := p.Parent()
+		idx := -1
+		for i, q := range g.Params {
+			if q == p {
+				idx = i
+			}
+		}
+		sites := c.G.Callers[g]
+		all := idx >= 0 && len(sites) > 0
+		for _, cs := range sites {
+			ci, ok := cs.Instr.(ssa.CallInstruction)
+			if !ok {
+				all = false
+				break
+			}
+			a := km.CallArgs(ci.Common())
+			if idx >= len(a) || !isInbound(a[idx]) {
+				all = false
+			}
+		}
+		if all {
+			inboundParam[p] = 2
+		}
+		return all
+	}
 	prefix := func(p string, pol bool) km.Prim {
 		return km.Prim{Name: map[bool]string{true: "", false: "!"}[pol] + "HasPrefix(x," + p + ")", Direct: func(f km.Fact) bool {
 			// x[0] == '/' is the same test as HasPrefix(x, "/")
@@ -276,6 +316,12 @@ func checkC17(c *km.Ctx) {
 		return isInboundPathPart(cl.Common().Args[0], isInbound, 0)
 	}}
 	noControl := km.Prim{Name: "no control character", Direct: func(f km.Fact) bool {
+		if f.Op == token.ILLEGAL && !f.Pol {
+			if cl, ok := f.X.(*ssa.Call); ok && km.CalleeFull(cl.Common()) == "strings.ContainsFunc" && isInbound(cl.Common().Args[0]) {
+				fnv, ok := km.Unwrap(cl.Common().Args[1]).(*ssa.Function)
+				return ok && fnv.String() == "unicode.IsControl"
+			}
+		}
 		if f.Op != token.LSS {
 			return false
 		}
@@ -297,8 +343,44 @@ func checkC17(c *km.Ctx) {
 			nRet++
 			continue
 		}
-		// phi of the fallback constant and the inbound value: judge the disjuncts in which the result is inbound
 		nRet++
+		if cl0, _ := callRes(v); cl0 != nil && !isInbound(v) {
+			// the result of a pure helper: every way the helper can have produced it is the constant fallback or
+			// the inbound value under the four tests
+			missingSet := map[string]bool{}
+			originsOK, nLeaves := true, 0
+			for _, k := range rc.State {
+				for _, lf := range s.Leaves(k, filter, rc.Ret, v, nil, 2) {
+					nLeaves++
+					lv := km.Unwrap(lf.Val)
+					if cs, isC := km.ConstString(lv); isC {
+						if !onOriginConst(cs) {
+							originsOK = false
+						}
+						continue
+					}
+					if resultIsConstOn(lf.K, lv) {
+						continue
+					}
+					if !phiOriginsAre(lv, isInbound) {
+						originsOK = false
+					}
+					for _, p := range []km.Prim{prefix("/", true), prefix("//", false), noBackslash, noControl} {
+						if !s.Holds(lf.K, p) {
+							missingSet[p.Name] = true
+						}
+					}
+				}
+			}
+			var missing []string
+			for m := range missingSet {
+				missing = append(missing, m)
+			}
+			sort.Strings(missing)
+			r.Add("R-C17-2", km.FuncName(filter), "client value returned", posOf(c, rc.Ret), "HasPrefix(x,\"/\") ∧ ¬HasPrefix(x,\"//\") ∧ no backslash before the first '?' ∧ no control character", sprintf("missing=%v origins-ok=%v (through %d helper returns)", missing, originsOK, nLeaves), len(missing) == 0 && originsOK && nLeaves > 0)
+			continue
+		}
+		// phi of the fallback constant and the inbound value: judge the disjuncts in which the result is inbound
 		var missing []string
 		for _, p := range []km.Prim{prefix("/", true), prefix("//", false), noBackslash, noControl} {
 			ok := rc.State.All(func(k km.Conj) bool {
@@ -384,6 +466,14 @@ func isInboundPathPart(v ssa.Value, isInbound func(ssa.Value) bool, depth int) b
 	v = km.Unwrap(v)
 	if isInbound(v) {
 		return true
+	}
+	// strings.Cut(x, "?") : the part before the first '?'
+	if ex, ok := v.(*ssa.Extract); ok && ex.Index == 0 {
+		if cl, ok := ex.Tuple.(*ssa.Call); ok && km.CalleeFull(cl.Common()) == "strings.Cut" {
+			if cs, isC := km.ConstString(cl.Common().Args[1]); isC && cs == "?" {
+				return isInbound(cl.Common().Args[0])
+			}
+		}
 	}
 	switch x := v.(type) {
 	case *ssa.Phi:
